@@ -129,7 +129,7 @@ def run(tier, seed):
         v.sample(s)
     nt = v.counters.get('feat_readministration_with_regimen', 0) + v.counters.get('feat_direct_after_indirect', 0)
     if nt == 0 or out['nwalks'] == 0:
-        raise MachineryError('vacuous run')
+        v.vacuous('vacuous run')
     cov = dict(states=sum(r['states'] for r in out['runs']), transitions=sum(r['transitions'] for r in out['runs']),
                traces_validated_against_impl=len(out['verdicts']) + out['ntrans'] * 2,
                evaluations=v.counters.get('evaluations', 0) + v.counters.get('steps', 0),
